@@ -118,6 +118,19 @@ theorem stale_table_visible : ¬ Linearizable Cfg.current := by
   revert this
   decide
 
+/-- **(v) a definitions-only tree stays cached as a full one**: `annotate_doc` writes
+    `annotated_ast` and `only_definitions` in two critical sections.  A definition request and a
+    hierarchy query annotate the same document object; the order `R1 publishes; R2 publishes
+    (replacing R1's tree); R2 writes only_definitions := true; R1 writes only_definitions := false`
+    leaves R2's definitions-only tree in the document with the flag of a full one.  A third
+    definition request, received after both have finished, hits the cache and is answered from a
+    tree without annotated bodies. -/
+theorem defs_only_tree_cached_as_full :
+    ((run Cfg.current (init disk1 [] [(.analysis true, D), (.table .no, D), (.analysis true, D)])
+      [1, 1, 1, 1, 1,  2, 2, 2, 2, 2,  1,  2, 2,  1,  1, 1, 1, 1, 1,  2, 2, 2, 2, 2,  3, 3, 3, 3, 3]).ths.map (·.pc)) =
+      [.done .half 0, .done (.ok (.tab [(D, "1")])) 0, .done .half 0] := by
+  decide
+
 /-- the precondition of the deadlock recorded as `C01:hang-concurrent-analysis-same-document` is
     reachable: two requests walk (fill) two annotated trees of the SAME document object at the same
     time, the second one having replaced the first one's tree in the document.  (The deadlock itself
